@@ -172,6 +172,51 @@ def canon_ids(st):
     return names, acts
 
 
+_FLOW_EVENTS = {"Started": "FlowStarted", "Finished": "FlowFinished", "Failed": "FlowFailed", "Start": "StartFlow", "Finish": "FinishFlow",
+                "Stop": "StopFlow", "Pause": "PauseFlow", "Resume": "ResumeFlow"}
+
+
+def _action_event_name(action_name, member):
+    if member in ("Start", "Stop", "Change"):
+        return member + action_name
+    if member in ("Started", "Finished") or member.endswith("Updated"):
+        return action_name + member
+    return None
+
+
+def true_event_name(st, fs, el):
+    """The name of the event a match statement waits for, derived here from the statement itself (the UMIM naming
+    convention), NOT with the function the interpreter uses to file the head in its dispatch index."""
+    from nemoguardrails.colang.v2_x.runtime import flows as _fl
+    spec = el.spec
+    members = spec.members
+
+    def mname(m):
+        return m.get("name") if isinstance(m, dict) else m.name
+    name = None
+    if spec.var_name is not None:
+        obj = fs.context.get(spec.var_name)
+        for m in (members or [])[:-1]:
+            obj = obj.get(mname(m)) if isinstance(obj, dict) else getattr(obj, mname(m), None)
+        last = mname(members[-1]) if members else None
+        if isinstance(obj, _fl.Event) and not members:
+            name = obj.name
+        elif isinstance(obj, _fl.Action) and last:
+            name = _action_event_name(obj.name, last)
+        elif isinstance(obj, _fl.FlowState) and last:
+            name = _FLOW_EVENTS.get(last)
+    elif members:
+        last = mname(members[0])
+        st_ = spec.spec_type.value if spec.spec_type else ""
+        if st_ == "flow":
+            name = _FLOW_EVENTS.get(last)
+        elif st_ == "action":
+            name = _action_event_name(spec.name, last)
+    else:
+        name = spec.name
+    return name if name else sm.get_event_name_from_element(st, fs, el)
+
+
 def project_state(st):
     """Small JSON record of what C06/C09 talk about: statuses, positions, indices - never whole objects."""
     names, acts = canon_ids(st)
@@ -190,7 +235,7 @@ def project_state(st):
             evname = ""
             if kind == "match":
                 try:
-                    evname = sm.get_event_name_from_element(st, fs, el)
+                    evname = true_event_name(st, fs, el)
                 except Exception as ex:  # projection must not raise
                     evname = "?" + type(ex).__name__
             heads.append({"id": hid, "pos": pos, "status": h.status.name, "kind": kind, "event": evname,
@@ -399,6 +444,8 @@ def export_sm_element(el):
                 r.update(k="unsupported", unsupported="ref form")
                 return r
         r["internal"] = "internal" in (el.info or {})
+        if members and not r["var"]:
+            r["unsupported"] = "event as member of a flow / action constructor"
         if r["name"] in ("FinishFlow", "StopFlow"):
             r["unsupported"] = "explicit FinishFlow/StopFlow"
         bad = [a for a in r["args"] + r["margs"] if a[1]["k"] == "unsupported"]
